@@ -347,6 +347,11 @@ def run(prog, rep, tier, repo):
     rep.floor('wiring', 12, 'min/max/mean + delegating methods')
     for kk in eng.visited:
         rep.touch(kk)
+    # ---- every statistic sees every observation: a value filter inside a moment / order / covariance routine must keep every finite value
+    from ..precond import check_data_filters
+    check_data_filters(prog, rep, 'data-filter', sorted(k for k, b in pdb.bodies.items() if k.startswith(ST) and b.kind != 'closure'),
+                       what='so the statistic is that of a subset of the data')
+    rep.floor('data-filter', 1, 'scan of statistics::')
     return {}
 
 
